@@ -303,6 +303,7 @@ def _child_main(sim, proc, blob):
                 obj.run()
             finally:
                 me.no_async = True
+                proc.run_done = True       # the process object's run() is over; the interpreter may still join children / threads
                 _exit_function(sim, proc)
         except SystemExit as e:
             c = e.code
